@@ -1,0 +1,8 @@
+//go:build verif
+
+// Contracts for package medley, checked by /verif/govc (see /verif/DESIGN.md). Comments only.
+package medley
+
+//@ func Uint64ToInt64Safe
+//@   ensures (ret1 == nil) <==> u <= 9223372036854775807
+//@   ensures ret1 == nil ==> ret0 == u
